@@ -629,7 +629,8 @@ func main() {
 	seed := flag.Uint64("seed", 1, "PRNG seed")
 	tier := flag.String("tier", "quick", "quick|thorough")
 	out := flag.String("out", "", "output directory")
-	replay := flag.String("replay", "", "replay file (JSON: kind=list|rule)")
+	replay := flag.String("replay", "", "replay file (JSON: kind=list|rule|e2e)")
+	fwd := flag.String("forwarder", "", "path of the forwarder binary built from the source tree (end-to-end cases)")
 	flag.Parse()
 	if err := os.MkdirAll(*out, 0o755); err != nil {
 		panic(err)
@@ -648,6 +649,9 @@ func main() {
 		Ctor          map[string]int `json:"constructor_outcomes"`
 		Features      map[string]int `json:"rule_features"`
 		ListLens      map[string]int `json:"list_lengths"`
+		E2ECases      int            `json:"e2e_cases"`
+		E2EProbes     map[string]int `json:"e2e_probes"`
+		E2EError      string         `json:"e2e_error,omitempty"`
 		Shards        []string       `json:"shards"`
 		ShardSize     int            `json:"shard_size"`
 		SamplesRule   []string       `json:"samples_rule_texts"`
@@ -666,11 +670,22 @@ func main() {
 			Entries []entry  `json:"entries"`
 			Perm    []int    `json:"perm"`
 			Hosts   []string `json:"hosts"`
+			Targets []target `json:"targets"`
 		}
 		if err := json.Unmarshal(data, &rp); err != nil {
 			panic(err)
 		}
-		if rp.Kind == "rule" {
+		if rp.Kind == "e2e" {
+			c := e2eCase{rp.Entries, rp.Targets}
+			s, _, err := runE2ECase(*fwd, c)
+			if err != nil {
+				fmt.Println("replay:", err)
+				os.Exit(3)
+			}
+			m.Shards = []string{writeShard(*out, "ucases", 0, "ucase", "ucase_model_ok", "ucase_prop_ok", "ucase_unmodelled", []string{s})}
+			writeJSONL(*out, "ucases.jsonl", []any{c})
+			m.E2ECases = 1
+		} else if rp.Kind == "rule" {
 			c := ruleCase{rp.Rule, rp.Hosts}
 			m.Shards = []string{writeShard(*out, "rcases", 0, "rcase", "rcase_model_ok", "(fun _ : rcase => true)", "rcase_unmodelled",
 				[]string{observeRule(c)})}
@@ -799,6 +814,35 @@ func main() {
 			ts = append(ts, t)
 		}
 		m.SamplesList = append(m.SamplesList, ts)
+	}
+	// ---- stream 3: the real binary with --deny-domains
+	if *fwd != "" {
+		nE2E := 14
+		if *tier == "thorough" {
+			nE2E = 120
+		}
+		m.E2EProbes = map[string]int{}
+		var uc []string
+		var uj []any
+		for i := 0; i < nE2E; i++ {
+			c := genE2ECase(r, i)
+			s, st, err := runE2ECase(*fwd, c)
+			if err != nil {
+				m.E2EError = err.Error()
+				break
+			}
+			for k, v := range st {
+				m.E2EProbes[k] += v
+			}
+			uc = append(uc, s)
+			uj = append(uj, c)
+		}
+		m.E2ECases = len(uc)
+		for i := 0; i*m.ShardSize < len(uc); i++ {
+			hi := min((i+1)*m.ShardSize, len(uc))
+			m.Shards = append(m.Shards, writeShard(*out, "ucases", i, "ucase", "ucase_model_ok", "ucase_prop_ok", "ucase_unmodelled", uc[i*m.ShardSize:hi]))
+		}
+		writeJSONL(*out, "ucases.jsonl", uj)
 	}
 	writeMeta(*out, m)
 }
